@@ -245,6 +245,15 @@ func runC20(r *Report, tier string) {
 			o := r.ob("R20.4", shortFn(fn)+":signer-error:"+exitID(P, fn, x), fn, x.ret, "a non-nil signer error is returned")
 			o.check(x.kind == exitFailure && x.errTerm.contains(func(u *Term) bool { return u.eq(errT) }), "returns "+x.errTerm.String(), "exit under a failed signer returns "+x.errTerm.String())
 		}
+		// ... and no exit behind the signer call reports success without the
+		// signer having succeeded
+		for _, x := range P.factsOf(fn).exits {
+			if x.kind == exitFailure || !s.call.Block().Dominates(x.ret.Block()) {
+				continue
+			}
+			o := r.ob("R20.4", shortFn(fn)+":signer-ok:"+exitID(P, fn, x), fn, x.ret, "success behind the signer call implies the signer returned nil")
+			o.check(exitFacts(P, x).has(okFact(errT)), "ok(signer.Sign) holds", "an exit behind the signer call can report success although the signer failed (its error is not what decides the result)")
+		}
 		// rand
 		o := r.ob("R20.5", shortFn(fn)+":rand", fn, s.call, "rand handed to the signer is the caller's io.Reader parameter")
 		rt := P.terms.of(s.rand)
@@ -324,6 +333,8 @@ func mutC20() []mutant {
 			Old: "\tif err := I2OSP(s, sig[n:]); err != nil {\n\t\treturn nil, err\n\t}", New: "\tif err := I2OSP(s, sig[n:]); err != nil {\n\t\treturn sig, err\n\t}"},
 		{Name: "Sign1Message encoder drops the empty-signature refusal", File: "sign1.go", Rule: "R20.3",
 			Old: "\tif len(m.Signature) == 0 {\n\t\treturn sign1Message{}, ErrEmptySignature\n\t}\n", New: ""},
+		{Name: "Countersignature.Sign returns a shadowed (nil) error when the signer fails", File: "countersign.go", Rule: "R20.4", Key: "signer-ok",
+			Old: "\tsig, err := signer.Sign(rand, toBeSigned)\n\tif err != nil {\n\t\treturn err\n\t}\n\n\ts.Signature = sig\n\treturn nil", New: "\tif sig, err := signer.Sign(rand, toBeSigned); err == nil {\n\t\ts.Signature = sig\n\t}\n\treturn err"},
 		{Name: "Signature.Sign swallows the signer error", File: "sign.go", Rule: "R20.4",
 			Old: "\tsig, err := signer.Sign(rand, toBeSigned)\n\tif err != nil {\n\t\treturn err\n\t}\n\n\ts.Signature = sig", New: "\tsig, err := signer.Sign(rand, toBeSigned)\n\tif err != nil {\n\t\treturn nil\n\t}\n\n\ts.Signature = sig"},
 		{Name: "Countersignature.Sign passes a nil entropy source", File: "countersign.go", Rule: "R20.5",
